@@ -213,8 +213,79 @@ func (c *Ctx) mkBindSite(f *ssa.Function, dID map[ssa.Value]bool, depth int) ins
 			}
 			return hasKey && hasPub
 		}
-		return c.acHelperSite(call, dID, c.mkBindSite, depth)
+		return c.acHelperSite(call, dID, c.mkBindSite, depth) || c.acPredicateSite(call, dID, c.mkBindSite, depth)
 	}
+}
+
+// acPredicateSite: the call hands the entry or its identity to a static repo predicate (first
+// result bool) whose every possibly-true return passes a site of the given kind, and the
+// caller branches on the result.
+func (c *Ctx) acPredicateSite(call ssa.CallInstruction, dID map[ssa.Value]bool, mk func(*ssa.Function, map[ssa.Value]bool, int) instrPred, depth int) bool {
+	h := call.Common().StaticCallee()
+	if h == nil || h.Blocks == nil || h.Pkg == nil || !inRepo(h.Pkg.Pkg) || depth >= 3 || call.Value() == nil {
+		return false
+	}
+	if h.Signature.Results().Len() == 0 || typeStr(h.Signature.Results().At(0).Type()) != "bool" {
+		return false
+	}
+	// the caller looks at the answer
+	used := false
+	var walk func(v ssa.Value, d int)
+	walk = func(v ssa.Value, d int) {
+		if v == nil || d > 3 || v.Referrers() == nil {
+			return
+		}
+		for _, r := range *v.Referrers() {
+			switch x := r.(type) {
+			case *ssa.If:
+				used = true
+			case *ssa.UnOp:
+				walk(x, d+1)
+			case *ssa.Extract:
+				if x.Index == 0 {
+					walk(x, d+1)
+				}
+			case *ssa.Phi:
+				walk(x, d+1)
+			}
+		}
+	}
+	walk(call.Value(), 0)
+	if !used {
+		return false
+	}
+	seeds := c.identityCalls(h)
+	for i, p := range h.Params {
+		if i < len(call.Common().Args) && dID[call.Common().Args[i]] {
+			seeds = append(seeds, p)
+		}
+	}
+	dH := derived(seeds, flowOpts{})
+	pred := mk(h, dH, depth+1)
+	any := false
+	eachInstr(h, func(in ssa.Instruction) {
+		if pred(in) {
+			any = true
+		}
+	})
+	if !any {
+		return false
+	}
+	mayBeTrue := func(in ssa.Instruction) bool {
+		r, ok := in.(*ssa.Return)
+		if !ok || len(r.Results) == 0 {
+			return false
+		}
+		for _, v := range resolveSpill(r.Results[0]) {
+			k, isK := v.(*ssa.Const)
+			if !isK || k.Value == nil || k.Value.ExactString() != "false" {
+				return true
+			}
+		}
+		return false
+	}
+	hit, _ := findPath(h, entry, pred, mayBeTrue, nil)
+	return hit == nil
 }
 
 // acHelperSite: the call hands the entry or its identity to a static repo helper, uses the
@@ -416,13 +487,51 @@ func (c *Ctx) ruleA4() {
 			}
 			nSC++
 			fk := fnKey(f)
-			var resolves []ssa.Value
+			var resolves []ssa.Value // Resolve calls (here or in a helper that returns the controller)
+			var viaHelper []ssa.Value
+			isResolve := func(rc ssa.CallInstruction) bool {
+				return calleeFull(rc) == repoMod+"/accesscontroller/utils.Resolve" && rc.Value() != nil
+			}
 			eachCall(f, func(rc ssa.CallInstruction) {
-				if calleeFull(rc) == repoMod+"/accesscontroller/utils.Resolve" && rc.Value() != nil {
+				if isResolve(rc) {
 					resolves = append(resolves, rc.Value())
+					return
+				}
+				h := rc.Common().StaticCallee()
+				if h == nil || h.Blocks == nil || h.Pkg != f.Pkg || rc.Value() == nil {
+					return
+				}
+				var inner []ssa.Value
+				eachCall(h, func(ic ssa.CallInstruction) {
+					if isResolve(ic) {
+						inner = append(inner, ic.Value())
+					}
+				})
+				if len(inner) == 0 {
+					return
+				}
+				dh := derived(inner, flowOpts{})
+				returned := false
+				eachInstr(h, func(in ssa.Instruction) {
+					if r, ok := in.(*ssa.Return); ok {
+						for _, v := range r.Results {
+							if dh[v] {
+								returned = true
+							}
+							for _, y := range resolveSpill(v) {
+								if dh[y] {
+									returned = true
+								}
+							}
+						}
+					}
+				})
+				if returned {
+					viaHelper = append(viaHelper, rc.Value())
+					resolves = append(resolves, inner...)
 				}
 			})
-			d := derived(resolves, flowOpts{})
+			d := derived(append(append([]ssa.Value{}, resolves...), viaHelper...), flowOpts{})
 			var opts ssa.Value
 			for _, a := range cc.Args {
 				if p, ok := a.Type().(*types.Pointer); ok && strings.HasSuffix(typeStr(p.Elem()), "iface.NewStoreOptions") {
